@@ -1,6 +1,7 @@
 package main
 
 import (
+	"strings"
 	"fmt"
 	"go/constant"
 	"go/token"
@@ -830,6 +831,20 @@ func (f *FnEnc) convert(x Val, from, to types.Type) Val {
 		e.declFun(fn, []Sort{fs}, SInt)
 		r := e.define("f2i", app(SInt, fn, x.(Term)))
 		e.fact(e.typingFact(to, r, Term{}))
+		// truncation is monotone: a value within [0, K] (K an integer exactly representable) truncates
+		// into [0, K]
+		xt := x.(Term)
+		if !strings.Contains(xt.S, "|q.") {
+			eb, sb := "8", "24"
+			if fs == SF64 {
+				eb, sb = "11", "53"
+			}
+			lit := func(k string) string { return fmt.Sprintf("((_ to_fp %s %s) RNE %s.0)", eb, sb, k) }
+			e.fact(Term{fmt.Sprintf("(=> (fp.leq %s %s) (<= 0 %s))", lit("0"), xt.S, r.S), SBool})
+			for _, k := range []string{"2147483648", "4294967296", "1099511627776", "4611686018427387904"} {
+				e.fact(Term{fmt.Sprintf("(=> (fp.leq %s %s) (<= %s %s))", xt.S, lit(k), r.S, k), SBool})
+			}
+		}
 		return r
 	case isString(to):
 		if sl, ok := fu.(*types.Slice); ok {
